@@ -39,13 +39,14 @@ type connEnd struct {
 }
 
 type closeRT struct {
-	w     *World
-	cs    *spec.CloseSpec
-	mu    sync.Mutex
-	calls []*callRec
-	ends  map[string]*connEnd // "c0s1/client"
-	ready map[string]chan struct{}
-	kills map[string][]killRec // session key -> everything that ended or broke the session
+	w      *World
+	cs     *spec.CloseSpec
+	mu     sync.Mutex
+	calls  []*callRec
+	ends   map[string]*connEnd // "c0s1/client"
+	ready  map[string]chan struct{}
+	kills  map[string][]killRec     // session key -> everything that ended or broke the session
+	dialAt map[string]time.Duration // session key -> when DialContext returned
 }
 
 // killRec is one event that ends or breaks a session.
@@ -71,7 +72,7 @@ func scenClose(s *spec.RunSpec, res *spec.RunResult, finish func(*World)) {
 	baseline := mieruGoroutines()
 	_ = baseline
 	w.startCap(finish)
-	c := &closeRT{w: w, cs: s.Close, ends: map[string]*connEnd{}, ready: map[string]chan struct{}{}, kills: map[string][]killRec{}}
+	c := &closeRT{w: w, cs: s.Close, ends: map[string]*connEnd{}, ready: map[string]chan struct{}{}, kills: map[string][]killRec{}, dialAt: map[string]time.Duration{}}
 	w.closeRT = c
 	for _, cl := range w.clients {
 		for i := range cl.spec.Sessions {
@@ -98,6 +99,9 @@ func scenClose(s *spec.RunSpec, res *spec.RunResult, finish func(*World)) {
 					}
 					return
 				}
+				c.mu.Lock()
+				c.dialAt[key] = c.now()
+				c.mu.Unlock()
 				c.setEnd(key+"/client", conn)
 			}()
 		}
@@ -425,7 +429,13 @@ func (c *closeRT) judge(stopBound time.Duration) {
 				if blocked {
 					state = "still blocked at the end of the run (" + final.String() + ")"
 				}
-				w.violate("C15", "call-hangs-after-"+kindClass(why.kind)+":"+r.op+":"+c.pressure(key), "%s: %s started at %v; the session was affected by %s (at the %s side) at %v; %s (bound %v)", r.conn, r.op, r.start, why.kind, why.side, why.at, state, bnd)
+				situation := c.pressure(key)
+				c.mu.Lock()
+				if da, ok := c.dialAt[key]; ok && why.kind == "client-stop" && da > why.at {
+					situation = "dial-completed-after-stop"
+				}
+				c.mu.Unlock()
+				w.violate("C15", "call-hangs-after-"+kindClass(why.kind)+":"+r.op+":"+situation, "%s: %s started at %v; the session was affected by %s (at the %s side) at %v; %s (bound %v)", r.conn, r.op, r.start, why.kind, why.side, why.at, state, bnd)
 			}
 			// deadlines: a deadline set before a call bounds that call ...
 			if r.deadline > 0 {
